@@ -4,8 +4,8 @@ from app/ante/ante.go (Gen/AnteChain.v); real ante handler + message handlers ru
 type x position x freeze settings x validator counts; spec checker evaluated in Coq."""
 import json, os
 
-FILES = ["Base/Prelude.v", "Base/Dec.v", "Model/Filters.v", "Model/Fees.v", "Gen/AnteChain.v", "Model/C09Check.v", "Model/C14Check.v",
-         "Proofs/Filters.v", "Proofs/Fees.v"]
+FILES = ["Base/Prelude.v", "Base/Dec.v", "Model/Filters.v", "Model/Fees.v", "Gen/AnteChain.v", "Gen/TransferSites.v", "Model/C09Check.v",
+         "Model/C14Check.v", "Proofs/Filters.v", "Proofs/Fees.v", "Proofs/C14Transfers.v"]
 
 
 def observe(R, n, seed=None):
@@ -29,12 +29,14 @@ def report(R, viol, cases):
 
 def run(R):
     R.trusted += ["translator harness/cmd/gen_ante (go/ast over app/ante/ante.go: decorator order, `return next` inside the message loops, message types inspected by the freeze filter)",
-                  "table of transfer-capable messages is hand-written: bank MsgSend, bank MsgMultiSend, custody MsgSend (Ethereum native send not driven)",
+                  "translator harness/cmd/gen_transfers (go/ast over x/*/keeper: every bank SendCoins call, handler, message type via Type() and types/Msg.go, origin of the coins by a syntactic rule); the reviewed table in Proofs/C14Transfers.v is hand-classified",
+                  "driven transfer paths: bank MsgSend, bank MsgMultiSend, custody MsgSend (with and without custody settings), tokens MsgEthereumTx NativeSend (raw EIP-155 transactions from Ethereum-style accounts); custody release / ethereum Relay / recovery rotation / collectives are in the table but not driven",
                   "fee admission / deduction / signature decorators modelled in Model/Fees.v and validated by the differential run",
                   "no axioms: every theorem of Properties/C14.v is closed under the global context"]
     R.assume += ["'another account' = user-to-user transfers (bank send / multi-send, custody send without custody settings); deposits into module escrow are not checked",
-                 "signers have no custody settings; crypto is an input of the model"]
+                 "custody records of signers have UsePassword / UseWhiteList / UseLimits off; crypto is an input of the model"]
     R.gen("gen_ante", "AnteChain.v")
+    R.gen("gen_transfers", "TransferSites.v")
     R.coq_files(FILES)
     R.coq_property()
     R.audit()
